@@ -80,3 +80,54 @@ Fixpoint c14_write_frames (fs : list sframe) (ks : list N) : res unit bytes :=
       end
   end.
 Definition c14_wire_write (fs : list sframe) (ks : list N) : option bytes := ok_opt (c14_write_frames fs ks).
+
+(* ---------- C02 + C03: the receiving FrameStream + RequestStream ---------- *)
+From H3V Require Import Spec.FrameVocab Model.FrameDec Model.FrameStream Model.RequestStream.
+
+(* the stream state and where the documented application is: first frame / recv_data / recv_trailers / finished *)
+Definition c03_state := (rstream * phase)%type.
+Definition c03_init : c03_state := (rs_new [], PFirst).
+Definition c03_arrive (c : bytes) (s : c03_state) : c03_state := (rarrive (Chunk c) (fst s), snd s).
+Definition c03_fin (s : c03_state) : c03_state := (rarrive Fin (fst s), snd s).
+Definition c03_done (s : c03_state) : bool := match snd s with PDone => true | _ => false end.
+
+(* what one completed call hands up *)
+Definition items_of_robs (o : robs) : list ritem :=
+  match o with
+  | OHead (Ready (Ok h)) => [RFirst h]
+  | OBody (Ready (Ok (Some d))) => [RData d]
+  | OBody (Ready (Ok None)) => [RDataEnd]
+  | OTrail (Ready (Ok t)) => [RTrailers t]
+  | OHead Pending | OBody Pending | OTrail Pending => []
+  | OHead (Ready _) => [RFail 1]
+  | OBody (Ready _) => [RFail 2]
+  | OTrail (Ready _) => [RFail 3]
+  end.
+
+(* one call of the application's current API (the RCall step of RequestStream.rrun) *)
+Definition c03_poll (r : role) (s : c03_state) : list ritem * c03_state :=
+  match snd s with
+  | PFirst =>
+      let '(res, rs') := poll_first r (fst s) in
+      (items_of_robs (OHead res),
+       (rs', match res with Pending => PFirst | Ready (Ok _) => PBody | Ready _ => PDone end))
+  | PBody =>
+      let '(res, rs') := poll_recv_data (fst s) in
+      (items_of_robs (OBody res),
+       (rs', match res with
+             | Pending => PBody | Ready (Ok (Some _)) => PBody | Ready (Ok None) => PTrailers | Ready _ => PDone
+             end))
+  | PTrailers =>
+      let '(res, rs') := poll_recv_trailers (fst s) in
+      (items_of_robs (OTrail res), (rs', match res with Pending => PTrailers | Ready _ => PDone end))
+  | PDone => ([], s)
+  end.
+
+(* ---------- C11: the field-section codec ---------- *)
+From H3V Require Import Model.QpackStateless.
+(* qpack::encode_stateless (the block; the returned size is C10's subject) *)
+Definition c11_encode_section (fs : fieldl) : option bytes :=
+  match encode_stateless fs with Ok (bs, _) => Some bs | _ => None end.
+(* qpack::decode_stateless with no limit on the section size (the limit is C10's subject) *)
+Definition c11_decode_section (b : bytes) : option fieldl :=
+  match decode_stateless None b with Ok (fs, _) => Some fs | _ => None end.
